@@ -77,14 +77,14 @@ func runServeCase(c *hsCase, census bool) (obs c14Obs) {
 				case "unknown0":
 					return &lime.AuthenticationResult{}, nil
 				}
-				return nil, errCallback
+				return nil, callbackError(len(c.Recvs))
 			case map[string]interface{}:
 				b, _ := json.Marshal(o["rt"])
 				var va codec.VAuth
 				json.Unmarshal(b, &va)
 				return &lime.AuthenticationResult{Role: lime.DomainRoleUnknown, RoundTrip: toAuth(&va)}, nil
 			}
-			return nil, errCallback
+			return nil, callbackError(len(c.Recvs))
 		},
 		Register: func(_ context.Context, n lime.Node, _ *lime.ServerChannel) (lime.Node, error) {
 			cbmu.Lock()
@@ -96,7 +96,7 @@ func runServeCase(c *hsCase, census bool) (obs c14Obs) {
 			ri++
 			log.add(map[string]interface{}{"e": "reg", "cand": vnode(n)})
 			if res == nil {
-				return lime.Node{}, errCallback
+				return lime.Node{}, callbackError(len(c.Recvs))
 			}
 			return lnode(*res), nil
 		},
@@ -293,7 +293,7 @@ func init() {
 				return err
 			}
 			var rc c14RealCase
-			if json.Unmarshal(b, &rc) == nil && strings.HasPrefix(rc.Family, "real-") {
+			if json.Unmarshal(b, &rc) == nil && (strings.HasPrefix(rc.Family, "real-") || rc.Family == "established-send-fails") {
 				return runC14Real(e, &rc)
 			}
 			var wrap struct {
